@@ -41,10 +41,62 @@ struct Ledger {
     bool                             log{false};
     std::vector<long>                events;        // +id alloc, -id free, 0 bad free (when log)
     bool                             enabled{true};
+    // C16: scopes written to $VERIF_LEDGER (one ndjson line per scope / segment; see spec/OracleMem.tla)
+    FILE                            *file{nullptr};
+    const char                      *harness{""};
+    bool                             scope_open{false};
+    bool                             case_scoped{false};   // every case creates and destroys all of its objects
+    long                             scope_id{0}, seg{0};
+    std::vector<long>                base;                 // instances live when the scope / segment began
 };
 inline Ledger &ledger() {
     static Ledger *l = new Ledger();
     return *l;
+}
+} // namespace vf
+
+namespace vf {
+inline void ledger_segment_begin(Ledger &l) {
+    l.base.clear();
+    for (auto &kv : l.live) l.base.push_back(kv.second);
+    std::sort(l.base.begin(), l.base.end());
+    l.events.clear();
+    l.log = true;
+}
+inline void ledger_segment_end(Ledger &l, int z) {
+    if (l.file == nullptr) return;
+    fprintf(l.file, "{\"h\":\"%s\",\"c\":%ld,\"seg\":%ld,\"z\":%d,\"base\":[", l.harness, l.scope_id, l.seg++, z);
+    for (size_t i = 0; i < l.base.size(); ++i) fprintf(l.file, i ? ",%ld" : "%ld", l.base[i]);
+    fprintf(l.file, "],\"ev\":[");
+    for (size_t i = 0; i < l.events.size(); ++i) fprintf(l.file, i ? ",%ld" : "%ld", l.events[i]);
+    fprintf(l.file, "]}\n");
+    l.events.clear();
+}
+inline void scope_begin(long id) {
+    Ledger &l = ledger();
+    if (l.file == nullptr) return;
+    l.enabled    = false;
+    l.scope_id   = id;
+    l.seg        = 0;
+    l.scope_open = true;
+    ledger_segment_begin(l);
+    l.enabled = true;
+}
+inline void scope_end(int z) {
+    Ledger &l = ledger();
+    if (l.file == nullptr || !l.scope_open) return;
+    l.enabled = false;
+    ledger_segment_end(l, z);
+    l.scope_open = false;
+    l.log        = false;
+    l.enabled    = true;
+}
+// a long scope is cut into segments (the oracle folds one segment at a time)
+inline void ledger_maybe_cut(Ledger &l) {
+    if (l.file != nullptr && l.scope_open && l.events.size() >= 1500) {
+        ledger_segment_end(l, 0);
+        ledger_segment_begin(l);
+    }
 }
 } // namespace vf
 
@@ -57,6 +109,7 @@ inline void Qentem::MemoryRecord::AddAllocation(void *p) noexcept {
     l.live[p] = id;
     ++l.allocs;
     if (l.log) l.events.push_back(id);
+    vf::ledger_maybe_cut(l);
     l.enabled = true;
 }
 inline void Qentem::MemoryRecord::RemoveAllocation(void *p) noexcept {
@@ -72,6 +125,7 @@ inline void Qentem::MemoryRecord::RemoveAllocation(void *p) noexcept {
         l.live.erase(it);
         ++l.frees;
     }
+    vf::ledger_maybe_cut(l);
     l.enabled = true;
 }
 #endif
@@ -121,9 +175,43 @@ inline void install_handlers() {
 inline void begin_case(long n, unsigned seconds = 20) {
     g_case = n;
     alarm(seconds);
+#ifndef VERIF_NO_LEDGER
+    Ledger &l = ledger();
+    if (l.file != nullptr && l.case_scoped) {
+        scope_end(1);
+        scope_begin(n);
+    }
+#endif
+}
+// C16: record the allocation ledger of this run into $VERIF_LEDGER.  case_scoped: every begin_case() starts a scope whose objects
+// are all gone at the next begin_case(); otherwise the whole run is one scope that ends (everything destroyed) at end_cases().
+inline void ledger_trace(const char *harness, bool case_scoped) {
+#ifndef VERIF_NO_LEDGER
+    const char *p = getenv("VERIF_LEDGER");
+    if (p == nullptr || *p == 0) return;
+    Ledger &l     = ledger();
+    l.enabled     = false;
+    l.file        = fopen(p, "w");
+    l.harness     = harness;
+    l.case_scoped = case_scoped;
+    l.enabled     = true;
+    if (!case_scoped) scope_begin(0);
+#endif
 }
 inline void end_cases() {
     alarm(0);
+#ifndef VERIF_NO_LEDGER
+    {
+        Ledger &l = ledger();
+        if (l.file != nullptr) {
+            scope_end(1);
+            l.enabled = false;
+            fclose(l.file);
+            l.file    = nullptr;
+            l.enabled = true;
+        }
+    }
+#endif
     if (g_trace) fflush(g_trace);
     printf("DONE\n");
     fflush(stdout);
